@@ -13,6 +13,7 @@ import (
 	"github.com/cloudwego/hertz/pkg/app/middlewares/server/recovery"
 	"github.com/cloudwego/hertz/pkg/common/config"
 	"github.com/cloudwego/hertz/pkg/common/tracer/stats"
+	"github.com/cloudwego/hertz/pkg/common/tracer/traceinfo"
 	"github.com/cloudwego/hertz/pkg/network"
 	"github.com/cloudwego/hertz/pkg/network/standard"
 	"github.com/cloudwego/hertz/pkg/protocol"
@@ -29,7 +30,7 @@ func init() {
 		Real:           []string{"http1.Server.Serve (DoStart/DoFinish/eventStack)", "internal/stats.Controller", "traceinfo.HTTPStats", "recovery middleware", "route.Engine", "standard.Conn"},
 		Stub:           []string{"TCP (SimConn)", "peer (scripted actor)", "transporter (stub; for return-to-transport mode the harness re-enters Engine.Serve when data arrives, as netpoll does)", "clock (synctest)"},
 		Assumptions:    []string{"a connection that delivers no byte at all may produce one Start/Finish pair (the server starts tracing before the first read); this is not counted against the per-request rule"},
-		RequiredProbes: []string{"out-expect-ok", "out-expect-rejected", "out-ok", "out-panic", "out-malformed", "out-toolarge", "out-fin-header", "out-fin-body", "out-rst-body", "out-write-error", "out-hijack", "out-close", "end-fin-idle", "end-rst-idle", "end-idle-timeout", "end-stray-fin", "mode-return-to-transport", "level-base", "level-detailed", "level-disabled"},
+		RequiredProbes: []string{"concurrent-connections", "second-connection", "zero-request-history", "out-expect-ok", "out-expect-rejected", "out-ok", "out-panic", "out-malformed", "out-toolarge", "out-fin-header", "out-fin-body", "out-rst-body", "out-write-error", "out-hijack", "out-close", "end-fin-idle", "end-rst-idle", "end-idle-timeout", "end-stray-fin", "mode-return-to-transport", "level-base", "level-detailed", "level-disabled"},
 	}
 }
 
@@ -43,8 +44,12 @@ type traceCall struct {
 }
 
 type recTracer struct {
-	calls []traceCall
+	sink func(c *app.RequestContext, tc traceCall)
+	wrap func(ti traceinfo.TraceInfo) traceinfo.TraceInfo
 }
+
+// c19Epoch: where the fake clock of every simulation bubble starts.
+var c19Epoch = time.Date(2000, 1, 1, 0, 0, 0, 0, time.UTC)
 
 var c19Events = []struct {
 	name string
@@ -71,10 +76,13 @@ func (t *recTracer) snap(kind string, c *app.RequestContext) {
 			}
 		}
 	}
-	t.calls = append(t.calls, tc)
+	t.sink(c, tc)
 }
 
 func (t *recTracer) Start(ctx context.Context, c *app.RequestContext) context.Context {
+	if t.wrap != nil {
+		c.SetTraceInfo(t.wrap(c.GetTraceInfo()))
+	}
 	t.snap("start", c)
 	return ctx
 }
@@ -90,7 +98,14 @@ func RunC19(ep *core.Episode) {
 	level := []stats.Level{stats.LevelDetailed, stats.LevelBase, stats.LevelDisabled}[tp.Weighted("level", []int{5, 2, 1})]
 	ep.Probe([]string{"level-disabled", "level-base", "level-detailed"}[int(level)])
 	tr := &recTracer{}
-	returnMode := tp.Chance("returnmode", 1, 5)
+	// values 0..4 keep their meaning as a 1-in-5 chance (recorded tapes); 5: two connections served at the same time
+	rmv := tp.Choose("returnmode", 6)
+	returnMode := rmv == 4
+	concurrent := rmv == 5
+	force := ep.Param("c19force") != "" // dev aid: two concurrent connections, the first ending in a write error
+	if force {
+		concurrent, returnMode = true, false
+	}
 	idleTimeout := 5 * time.Second
 	o := SrvOpts{BufSize: 4096, MaxBody: 2000, IdleTimeout: idleTimeout}
 	o.Stream = tp.Chance("stream", 1, 4)
@@ -112,12 +127,36 @@ func RunC19(ep *core.Episode) {
 		outcomes []string
 		handled  int
 		conn     *SrvConn
+		calls    []traceCall
+		verify   func() bool
 	}
-	var cur *connState
+	var cur *connState // the connection being served (sequential mode) / last prepared
+	byConn := map[interface{}]*connState{}
+	stateOf := func(ctx *app.RequestContext) *connState {
+		if st := byConn[ctx.GetConn()]; st != nil {
+			return st
+		}
+		return cur
+	}
+	tr.sink = func(c *app.RequestContext, tc traceCall) {
+		st := stateOf(c)
+		st.calls = append(st.calls, tc)
+	}
+	recordCount := 0
+	if concurrent {
+		// every stage record is a scheduling point: the two connections interleave inside Serve's prologue and epilogue
+		tr.wrap = func(ti traceinfo.TraceInfo) traceinfo.TraceInfo {
+			if _, ok := ti.(*yieldTraceInfo); ok {
+				return ti
+			}
+			return &yieldTraceInfo{TraceInfo: ti, ep: ep, count: &recordCount}
+		}
+	}
 	srv.Eng.Use(recovery.Recovery(recovery.WithRecoveryHandler(func(c context.Context, ctx *app.RequestContext, err interface{}, stack []byte) {
 		ctx.AbortWithStatus(500)
 	})))
 	srv.Eng.Any("/*any", func(c context.Context, ctx *app.RequestContext) {
+		cur := stateOf(ctx)
 		idx := cur.handled
 		cur.handled++
 		time.Sleep(time.Millisecond) // distinct stage timestamps on the fake clock
@@ -147,7 +186,7 @@ func RunC19(ep *core.Episode) {
 	srv.Eng.ContinueHandler = func(h *protocol.RequestHeader) bool { return len(h.Peek("X-Reject")) == 0 }
 	srv.Start()
 
-	runConn := func(ci int) bool {
+	prepare := func(ci int) *connState {
 		// the added sixth weight is the zero-request history: the peer connects and leaves without a byte
 		n := 1 + tp.Weighted("nreq", []int{2, 3, 3, 2, 1, 1})
 		if n == 6 {
@@ -164,6 +203,9 @@ func RunC19(ep *core.Episode) {
 			if outcomes[i] != "ok" && outcomes[i] != "panic" && outcomes[i] != "expect-ok" && outcomes[i] != "expect-rejected" && ender < 0 {
 				ender = i
 			}
+		}
+		if force && ci == 0 {
+			outcomes, n, ender = []string{"write-error"}, 1, 0
 		}
 		if ender >= 0 {
 			outcomes = outcomes[:ender+1]
@@ -187,10 +229,16 @@ func RunC19(ep *core.Episode) {
 		a, b := nw.NewPair(fmt.Sprintf("c%d", ci+1))
 		a.Out.Auto = true
 		conn := &SrvConn{Name: fmt.Sprintf("c%d", ci+1), A: a, B: b}
-		cur = &connState{outcomes: outcomes, conn: conn}
-		tr.calls = nil
+		st := &connState{outcomes: outcomes, conn: conn}
+		first := cur // the connection prepared before this one, if any
+		cur = st
 		serves := 0
+		lateStart := concurrent && ci == 1
 		conn.Task = ep.S.Go(conn.Name+".srv", func() {
+			if lateStart {
+				// the second connection is accepted at a moment the scheduler picks, typically well into the first one's history
+				ep.S.Block(conn.Task, "second.accept")
+			}
 			defer func() {
 				if r := recover(); r != nil {
 					conn.PanicVal = r
@@ -199,6 +247,7 @@ func RunC19(ep *core.Episode) {
 				}
 			}()
 			nc := standard.NewVerifConn(a, o.BufSize)
+			byConn[nc] = st
 			for {
 				serves++
 				conn.Err = srv.Eng.Serve(context.Background(), nc)
@@ -286,187 +335,258 @@ func RunC19(ep *core.Episode) {
 			cl.Sends = append(cl.Sends, Send{Data: []byte(stray), AfterResps: after, Label: "stray"}, Send{Kind: "fin", AfterResps: n, Delay: delay, Label: "fin-after-stray"})
 			ep.Fault("stray-bytes")
 		}
+		acceptAfter := 0
+		if lateStart {
+			acceptAfter = tp.Choose("acceptafter", 40)
+		}
+		if lateStart {
+			ep.S.AddSource(core.SourceFunc(func(add func(core.Event)) {
+				// the accept lands after a tape-chosen number of stage records of the first connection: uniformly
+				// over its history, its epilogue included (a random walk alone would nearly always accept early)
+				if conn.Task.Site() == "second.accept" && (recordCount >= acceptAfter || (first != nil && first.conn.Task.Done)) {
+					add(core.Event{Key: "accept-second-connection", Weight: 30, Apply: func() { ep.S.Release(conn.Task) }})
+				}
+			}))
+		}
 		ep.S.Horizon = 30 * time.Second
-		res := ep.S.Run(func() bool { return conn.Task.Done })
-		cl.Parse()
-		if CheckPanic(ep, "C19", conn) {
-			return false
-		}
-		switch res {
-		case core.RunDeadlock:
-			ep.Fail("C19.per-request", "connection never ended: %d cur.handled, %d responses, serve calls %d; %s", cur.handled, len(cl.Resps), serves, ep.S.Describe())
-			return false
-		case core.RunStepCap:
-			ep.Infra = "step cap"
-			return false
-		case core.RunViolation:
-			return false
-		}
+		st.verify = func() bool {
+			cur := st
+			res := core.RunDone
+			if !conn.Task.Done {
+				res = core.RunDeadlock
+			}
+			cl.Parse()
+			if CheckPanic(ep, "C19", conn) {
+				return false
+			}
+			switch res {
+			case core.RunDeadlock:
+				ep.Fail("C19.per-request", "connection never ended: %d cur.handled, %d responses, serve calls %d; %s", cur.handled, len(cl.Resps), serves, ep.S.Describe())
+				return false
+			case core.RunStepCap:
+				ep.Infra = "step cap"
+				return false
+			case core.RunViolation:
+				return false
+			}
 
-		// ---- oracle: automaton over the call log ----
-		calls := tr.calls
-		desc := func() string {
-			var s []string
-			for _, c := range calls {
-				s = append(s, c.kind+"("+c.path+")")
-			}
-			return strings.Join(s, " ")
-		}
-		open := false
-		pairs := 0
-		for i, c := range calls {
-			switch c.kind {
-			case "start":
-				if open {
-					ep.Fail("C19.alternate", "call %d is a second Start without a Finish in between: %s", i, desc())
-					return false
+			// ---- oracle: automaton over the call log ----
+			calls := st.calls
+			desc := func() string {
+				var s []string
+				for _, c := range calls {
+					s = append(s, c.kind+"("+c.path+")")
 				}
-				open = true
-			case "finish":
-				if !open {
-					ep.Fail("C19.no-orphan", "call %d is a Finish without a preceding unmatched Start (requests on the connection: %d, outcomes %v, end %s): %s", i, n, outcomes, endKind, desc())
-					return false
-				}
-				open = false
-				pairs++
+				return strings.Join(s, " ")
 			}
-		}
-		if open {
-			ep.Fail("C19.alternate", "the last Start was never finished: %s", desc())
-			return false
-		}
-		// how many requests certainly began to be read: every cur.handled one, plus the
-		// ending request when its bytes could not be lost (a reset may destroy
-		// bytes the server had not looked at yet)
-		lower := cur.handled
-		if ender >= 0 && cur.handled == ender {
-			switch outcomes[ender] {
-			case "malformed", "toolarge", "fin-body":
-				lower++
-			case "fin-header":
-				// on a keep-alive connection the server waits for the first 4 bytes
-				// of the next request before it counts it as begun
-				if ender == 0 || finHeaderCut >= 4 {
+			open := false
+			pairs := 0
+			for i, c := range calls {
+				switch c.kind {
+				case "start":
+					if open {
+						ep.Fail("C19.alternate", "call %d is a second Start without a Finish in between: %s", i, desc())
+						return false
+					}
+					open = true
+				case "finish":
+					if !open {
+						ep.Fail("C19.no-orphan", "call %d is a Finish without a preceding unmatched Start (requests on the connection: %d, outcomes %v, end %s): %s", i, n, outcomes, endKind, desc())
+						return false
+					}
+					open = false
+					pairs++
+				}
+			}
+			if open {
+				ep.Fail("C19.alternate", "the last Start was never finished: %s", desc())
+				return false
+			}
+			// how many requests certainly began to be read: every cur.handled one, plus the
+			// ending request when its bytes could not be lost (a reset may destroy
+			// bytes the server had not looked at yet)
+			lower := cur.handled
+			if ender >= 0 && cur.handled == ender {
+				switch outcomes[ender] {
+				case "malformed", "toolarge", "fin-body":
 					lower++
+				case "fin-header":
+					// on a keep-alive connection the server waits for the first 4 bytes
+					// of the next request before it counts it as begun
+					if ender == 0 || finHeaderCut >= 4 {
+						lower++
+					}
 				}
 			}
-		}
-		upper := n
-		if n == 0 {
-			// the server is entered (and the tracer started) before the first byte is read: one pair that
-			// brackets nothing is how a connection without any request shows up
-			upper = 1
-		}
-		if returnMode && endKind == "stray-fin" {
-			// return-to-transport mode: the transport re-enters the server for any
-			// readable byte, so the stray bytes legitimately begin a (failing) request
-			upper = n + 1
-		}
-		if pairs < lower || pairs > upper {
-			ep.Fail("C19.per-request", "%d Start/Finish pairs, want between %d and %d (%d handler invocations, outcomes %v, end %s): %s", pairs, lower, n, cur.handled, outcomes, endKind, desc())
-			return false
-		}
-		for i := 0; i < pairs && i < len(outcomes); i++ {
-			st, fin := calls[2*i], calls[2*i+1]
-			oc := outcomes[i]
-			// the finish carries this request's data
-			if i < cur.handled {
-				if want := fmt.Sprintf("/t%d", i); fin.path != want {
-					ep.Fail("C19.per-request", "Finish of pair %d carries path %q, want %q (outcome %s): %s", i, fin.path, want, oc, desc())
-					return false
-				}
+			upper := n
+			if n == 0 {
+				// the server is entered (and the tracer started) before the first byte is read: one pair that
+				// brackets nothing is how a connection without any request shows up
+				upper = 1
 			}
-			// ... including its error: a request that was served normally finishes without one (at every trace level)
-			if (oc == "ok" || oc == "close" || oc == "expect-ok") && i < cur.handled && i < len(cl.Resps) && fin.err != nil {
-				ep.Fail("C19.per-request", "Finish of pair %d (outcome %s, connection %d) carries the error %v of another exchange", i, oc, ci, fin.err)
+			if returnMode && endKind == "stray-fin" {
+				// return-to-transport mode: the transport re-enters the server for any
+				// readable byte, so the stray bytes legitimately begin a (failing) request
+				upper = n + 1
+			}
+			if pairs < lower || pairs > upper {
+				ep.Fail("C19.per-request", "%d Start/Finish pairs, want between %d and %d (%d handler invocations, outcomes %v, end %s): %s", pairs, lower, n, cur.handled, outcomes, endKind, desc())
 				return false
 			}
-			if st.err != nil {
-				ep.Fail("C19.reset", "an error (%v) is already recorded when pair %d of connection %d starts", st.err, i, ci)
-				return false
-			}
-			// no event of the previous request is visible when the pair starts
-			var stNames []string
-			for name := range st.events {
-				stNames = append(stNames, name)
-			}
-			sort.Strings(stNames) // map order must not reach the message
-			for _, name := range stNames {
-				if name != "HTTPStart" {
-					ep.Fail("C19.reset", "event %s is already present when pair %d starts", name, i)
+			for i := 0; i < pairs && i < len(outcomes); i++ {
+				st, fin := calls[2*i], calls[2*i+1]
+				oc := outcomes[i]
+				// the finish carries this request's data
+				if i < cur.handled {
+					if want := fmt.Sprintf("/t%d", i); fin.path != want {
+						ep.Fail("C19.per-request", "Finish of pair %d carries path %q, want %q (outcome %s): %s", i, fin.path, want, oc, desc())
+						return false
+					}
+				}
+				// ... including its error: a request that was served normally finishes without one (at every trace level)
+				if (oc == "ok" || oc == "close" || oc == "expect-ok") && i < cur.handled && i < len(cl.Resps) && fin.err != nil {
+					ep.Fail("C19.per-request", "Finish of pair %d (outcome %s, connection %d) carries the error %v of another exchange", i, oc, ci, fin.err)
 					return false
 				}
-			}
-			if level == stats.LevelDisabled {
-				if len(fin.events) != 0 {
-					ep.Fail("C19.stages", "events recorded at level Disabled: %v", fin.events)
+				if st.err != nil {
+					ep.Fail("C19.reset", "an error (%v) is already recorded when pair %d of connection %d starts", st.err, i, ci)
 					return false
 				}
-				continue
-			}
-			for _, must := range []string{"HTTPStart", "HTTPFinish"} {
-				if _, ok := fin.events[must]; !ok {
-					ep.Fail("C19.stages", "pair %d (outcome %s) finished without event %s", i, oc, must)
-					return false
+				// no event of the previous request is visible when the pair starts
+				var stNames []string
+				for name := range st.events {
+					stNames = append(stNames, name)
 				}
-			}
-			if level == stats.LevelBase {
-				if len(fin.events) != 2 {
-					ep.Fail("C19.stages", "level Base recorded detailed events: %v", fin.events)
-					return false
+				sort.Strings(stNames) // map order must not reach the message
+				for _, name := range stNames {
+					if name != "HTTPStart" {
+						ep.Fail("C19.reset", "event %s is already present when pair %d starts", name, i)
+						return false
+					}
 				}
-				continue
-			}
-			// every started stage is finished, also on error outcomes
-			for _, sf := range [][2]string{{"ReadHeaderStart", "ReadHeaderFinish"}, {"ReadBodyStart", "ReadBodyFinish"}, {"ServerHandleStart", "ServerHandleFinish"}, {"WriteStart", "WriteFinish"}} {
-				_, s := fin.events[sf[0]]
-				_, f := fin.events[sf[1]]
-				if s != f {
-					ep.Fail("C19.stages", "pair %d (outcome %s): %s present=%v but %s present=%v", i, oc, sf[0], s, sf[1], f)
-					return false
-				}
-			}
-			// causal order of what was recorded
-			var prev time.Time
-			prevName := ""
-			for _, e := range c19Events {
-				t, ok := fin.events[e.name]
-				if !ok {
+				if level == stats.LevelDisabled {
+					if len(fin.events) != 0 {
+						ep.Fail("C19.stages", "events recorded at level Disabled: %v", fin.events)
+						return false
+					}
 					continue
 				}
-				if t.Before(prev) {
-					ep.Fail("C19.stages", "pair %d (outcome %s): %s at %v is earlier than %s at %v", i, oc, e.name, t.Sub(time.Time{}), prevName, prev.Sub(time.Time{}))
-					return false
+				for _, must := range []string{"HTTPStart", "HTTPFinish"} {
+					if _, ok := fin.events[must]; !ok {
+						ep.Fail("C19.stages", "pair %d (outcome %s) finished without event %s", i, oc, must)
+						return false
+					}
 				}
-				prev, prevName = t, e.name
+				if level == stats.LevelBase {
+					if len(fin.events) != 2 {
+						ep.Fail("C19.stages", "level Base recorded detailed events: %v", fin.events)
+						return false
+					}
+					continue
+				}
+				// every started stage is finished, also on error outcomes
+				for _, sf := range [][2]string{{"ReadHeaderStart", "ReadHeaderFinish"}, {"ReadBodyStart", "ReadBodyFinish"}, {"ServerHandleStart", "ServerHandleFinish"}, {"WriteStart", "WriteFinish"}} {
+					_, s := fin.events[sf[0]]
+					_, f := fin.events[sf[1]]
+					if s != f {
+						ep.Fail("C19.stages", "pair %d (outcome %s): %s present=%v but %s present=%v", i, oc, sf[0], s, sf[1], f)
+						return false
+					}
+				}
+				// causal order of what was recorded
+				var prev time.Time
+				prevName := ""
+				for _, e := range c19Events {
+					t, ok := fin.events[e.name]
+					if !ok {
+						continue
+					}
+					if t.Before(prev) {
+						ep.Fail("C19.stages", "pair %d (outcome %s): %s at %v is earlier than %s at %v", i, oc, e.name, t.Sub(c19Epoch), prevName, prev.Sub(c19Epoch))
+						return false
+					}
+					prev, prevName = t, e.name
+				}
+				if oc == "ok" || oc == "close" || oc == "hijack" || oc == "expect-ok" {
+					if len(fin.events) != len(c19Events) {
+						ep.Fail("C19.stages", "pair %d (outcome %s) is missing stage events: has %d of %d", i, oc, len(fin.events), len(c19Events))
+						return false
+					}
+					if !fin.events["ServerHandleFinish"].After(fin.events["ServerHandleStart"]) {
+						ep.Fail("C19.stages", "pair %d: handler took 1ms of simulated time but handle start/finish stamps are not increasing", i)
+						return false
+					}
+				}
 			}
-			if oc == "ok" || oc == "close" || oc == "hijack" || oc == "expect-ok" {
-				if len(fin.events) != len(c19Events) {
-					ep.Fail("C19.stages", "pair %d (outcome %s) is missing stage events: has %d of %d", i, oc, len(fin.events), len(c19Events))
-					return false
-				}
-				if !fin.events["ServerHandleFinish"].After(fin.events["ServerHandleStart"]) {
-					ep.Fail("C19.stages", "pair %d: handler took 1ms of simulated time but handle start/finish stamps are not increasing", i)
-					return false
-				}
+			if ci == 0 {
+				ep.Nontrivial = n >= 2 || len(ep.Faults) > 0
+				ep.Sample = map[string]interface{}{"outcomes": outcomes, "end": endKind, "trace_level": int(level), "return_to_transport": returnMode, "calls": desc()}
 			}
+			return true
 		}
-		if ci == 0 {
-			ep.Nontrivial = n >= 2 || len(ep.Faults) > 0
-			ep.Sample = map[string]interface{}{"outcomes": outcomes, "end": endKind, "trace_level": int(level), "return_to_transport": returnMode, "calls": desc()}
+		return st
+	}
+	run := func(sts ...*connState) bool {
+		res := ep.S.Run(func() bool {
+			for _, st := range sts {
+				if !st.conn.Task.Done {
+					return false
+				}
+			}
+			return true
+		})
+		if res == core.RunStepCap {
+			ep.Infra = "step cap"
+			return false
+		}
+		if res == core.RunViolation {
+			return false
+		}
+		for _, st := range sts {
+			if !st.verify() {
+				return false
+			}
 		}
 		return true
-
 	}
-	if !runConn(0) {
+	if concurrent {
+		ep.Probe("concurrent-connections")
+		a, b := prepare(0), prepare(1)
+		run(a, b)
+		return
+	}
+	if !run(prepare(0)) {
 		return
 	}
 	// a second connection after the first has ended: it is served with the request context (and its trace
 	// info) that the first one gave back
 	if tp.Chance("secondconn", 1, 3) {
 		ep.Probe("second-connection")
-		runConn(1)
+		run(prepare(1))
 	}
+}
+
+// yieldTraceInfo makes every stage record a scheduling point.
+type yieldTraceInfo struct {
+	traceinfo.TraceInfo
+	ep    *core.Episode
+	count *int
+}
+
+func (t *yieldTraceInfo) Stats() traceinfo.HTTPStats {
+	return &yieldStats{HTTPStats: t.TraceInfo.Stats(), ep: t.ep, count: t.count}
+}
+
+type yieldStats struct {
+	traceinfo.HTTPStats
+	ep    *core.Episode
+	count *int
+}
+
+func (s *yieldStats) Record(event stats.Event, status stats.Status, info string) {
+	*s.count++
+	s.ep.S.Yield("stats.record")
+	s.HTTPStats.Record(event, status, info)
 }
 
 type osSyscallErr struct {
